@@ -8,9 +8,22 @@ namespace VncModel.FileXfer
 
 /-! ### confinement vocabulary -/
 
-/-- `p` is the root followed by a root-relative name that starts with '/' and has no ".."
-component: lexically below the root (symlink-free file system assumed) -/
-def Rooted (root p : Path) : Prop := ∃ q, belowRoot q = true ∧ p = root ++ q
+/-- `p` is a path ConvertPath ACCEPTED: the conversion of some client name `q` (so `p = root ++ q`
+with `q` starting with '/', free of ".." components and short enough, see `rooted_below`): lexically
+below the root (symlink-free file system assumed) -/
+def Rooted (root p : Path) : Prop := ∃ q, convertPath root q = some p
+
+/-- what an accepted path looks like -/
+theorem rooted_below (root p : Path) (h : Rooted root p) :
+    ∃ q, belowRoot q = true ∧ p = root ++ q ∧ q.length + root.length ≤ Gen.C19.PATH_MAX - 1 := by
+  obtain ⟨q, hq⟩ := h
+  unfold convertPath at hq
+  split at hq
+  · simp at hq
+  · rename_i hc
+    simp only [Option.some.injEq] at hq
+    simp only [not_or, Bool.not_eq_true', Bool.not_eq_false, Nat.not_lt] at hc
+    exact ⟨q, hc.2.2, hq.symm, hc.2.1⟩
 
 /-- a path the extension may hand to libc: the empty string (names no file: ENOENT), a rooted path,
 or an entry (other than "." and "..") of a rooted directory, with or without a separating '/' -/
@@ -18,15 +31,7 @@ def Confined (root p : Path) : Prop :=
   p = [] ∨ Rooted root p ∨
     ∃ d name, Rooted root d ∧ name ≠ [46, 46] ∧ name ≠ [46] ∧ (p = d ++ 47 :: name ∨ p = d ++ name)
 
-theorem convertPath_rooted (root p r : Path) (h : convertPath root p = some r) : Rooted root r := by
-  unfold convertPath at h
-  split at h
-  · simp at h
-  · rename_i hc
-    simp only [Option.some.injEq] at h
-    refine ⟨p, ?_, h.symm⟩
-    simp only [not_or, Bool.not_eq_true', Bool.not_eq_false] at hc
-    exact hc.2.2
+theorem convertPath_rooted (root p r : Path) (h : convertPath root p = some r) : Rooted root r := ⟨p, h⟩
 
 /-- the name of the upload the client record remembers ("" if none) -/
 def upName (s : S) : Path :=
@@ -34,7 +39,8 @@ def upName (s : S) : Path :=
   | some t => t.up.fName
   | none => []
 
-/-- the remembered upload name is empty or rooted -/
+/-- the upload name the record remembers is empty or a path ConvertPath accepted for an earlier
+request (never a client's raw, refused name) -/
 def UpOk (root : Path) (s : S) : Prop := upName s = [] ∨ Rooted root (upName s)
 
 theorem upName_of {s : S} {t : Tight} (h : s.cl.tight = some t) : t.up.fName = upName s := by
